@@ -229,7 +229,7 @@ Proof.
         unfold scale_linear in He. rewrite value_not_complex in He. now injection He as <-.
       * destruct (eval_src fuel g raw s') as [vin|] eqn:Ei; cbn [bind] in He; [|discriminate].
         rewrite (IH _ _ Ei). cbn [bind]. rewrite value_poly_dtype.
-        unfold scale_polynomial in He. destruct cs; now injection He as <-.
+        unfold scale_polynomial in He. destruct (rev cs); now injection He as <-.
       * destruct (eval_src fuel g raw s') as [vin|] eqn:Ei; cbn [bind] in He; [|discriminate].
         rewrite (IH _ _ Ei). cbn [bind]. rewrite value_table_dtype.
         unfold scale_table in He. destruct (negb _); [discriminate|].
